@@ -651,6 +651,26 @@ def g9(rep, tms):
     return r
 
 
+def _letters_in(F, b, depth, seen):
+    """one-letter literals a detector knows: in its body, in the constant tables it reads and in the detectors it
+    delegates to"""
+    ls = set()
+    if b is None or b["path"] in seen or depth > 3:
+        return ls
+    seen.add(b["path"])
+    for n in walk(b.get("body") or {}):
+        if n.get("k") == "lit" and n.get("t") in ("str", "char") and isinstance(n.get("v"), str) \
+                and len(n["v"]) == 1 and n["v"].isupper():
+            ls.add(n["v"])
+        if n.get("k") == "def" and n.get("dk") in ("const", "assoc_const", "static"):
+            ls |= _letters_in(F, F.body_by_path.get(n.get("def")), depth + 1, seen)
+        if n.get("k") in ("call", "mcall"):
+            cal = n.get("inst") or n.get("f") or ""
+            if cal.startswith("parser::message_parser::") and "detect" in cal.rsplit("::", 1)[-1]:
+                ls |= _letters_in(F, F.body_by_path.get(cal), depth + 1, seen)
+    return ls
+
+
 def detector_letters(F):
     """letters known by detect_variant / detect_variant_optional / peek_field_variant"""
     out = {}
@@ -658,12 +678,7 @@ def detector_letters(F):
         b = F.body_by_path.get("parser::message_parser::MessageParser::<'a>::" + name)
         if b is None:
             continue
-        ls = set()
-        for n in walk(b["body"]):
-            if n.get("k") == "lit" and n.get("t") in ("str", "char") and isinstance(n.get("v"), str) \
-                    and len(n["v"]) == 1 and n["v"].isupper():
-                ls.add(n["v"])
-        out[name] = ls
+        out[name] = _letters_in(F, b, 0, set())
     return out
 
 
